@@ -1,5 +1,5 @@
 #!/usr/bin/env python3
-"""Part of `./check C11` and `./check C07`: folds the evidence of the shuttle (caller threads) part into evidence/<ID>.json.
+"""Part of `./check C05|C07|C11`: folds the evidence of the shuttle (caller threads) part into evidence/<ID>.json.
 usage: merge_threads.py <ID>"""
 import json, sys, os
 pid = sys.argv[1] if len(sys.argv) > 1 else "C11"
@@ -14,6 +14,8 @@ c["threads"] = t
 c["evaluations"] = int(c["evaluations"]) + int(t["executions"])
 if pid == "C11":
     c["rule"] += " | threads part: 2-4 shuttle threads x 1-4 first polls each, counters preset 0-5 before the wrap, random and PCT schedulers; distinct counted for the single-task part only"
+elif pid == "C05":
+    c["rule"] += " | threads part: 2-4 shuttle threads x 1-3 operations (QoS 1/2 publish, subscribe, unsubscribe) started concurrently, identifiers preset next to the wrap or next to 255/256, every request acknowledged in reverse wire order with a reason string naming it; every future must complete exactly once with its own acknowledgement; random and PCT schedulers; distinct counted for the single-task part only"
 else:
     c["rule"] += " | threads part: 2-3 shuttle threads x 1-3 concurrent subscribe() calls each (scheduling points before and after every access to the shared identifier counters), then one message per subscription identifier before and after the SUBACKs; every call must receive exactly its own; random and PCT schedulers; distinct counted for the single-task part only"
 e["wall_s"] = float(e["wall_s"]) + float(t["wall_s"])
